@@ -1286,7 +1286,7 @@ theorem combine_isOk (f : α → α → α) (a b : FoodVal α) (ku fu pu : Label
       have L3 : (List.zipWith f a.protein b.protein).length = a.kcals.length := by simp [← e2, h2]
       simp only [bop, hl, e1, e2, beq_self_eq_true, if_true, Bool.or_self, build, buildSeries, guard', L1, L2, L3,
         Bool.and_self, decide_eq_true h0]
-      simp
+      simp [g0]
     · simp [bop, hl]
 
 /-- `r * x` is accepted exactly when `x * r` is -/
@@ -1302,7 +1302,6 @@ theorem mul_accept_symm (r x : FoodVal α) (hr : LabelOK r) (hx : LabelOK x) (hr
     | (rw [combine_isOk _ r x _ _ _ hr hx, combine_isOk _ x r _ _ _ hx hr]
        simp only [hsr, hsx, forall_true_left, Bool.false_eq_true, false_implies, implies_true]
        try exact ⟨Eq.symm, Eq.symm⟩)
-    | simp
 
 /-! ## well-labelled operands with compatible lengths never reach a corner the model does not predict -/
 
